@@ -52,7 +52,7 @@ AGI_HEADER = "impl<'a, P> Iterator for AggregatedGensIter<'a, P> {\n    type Ite
 def types(ext="stub", agi="stub"):
     """extracted type definitions + ExtensionDegree conversions (verified in unit ctors, contract assumed elsewhere) + spec-side facts"""
     k = {"fns": ["try_from"]} if ext == "body" else {"stubs": ["try_from"]}
-    ka = {"fns": ["next"]} if agi == "body" else {"stubs": ["next"]}
+    ka = {"fns": ["next", "size_hint"]} if agi == "body" else {"stubs": ["next"]}
     agi_piece = fns("src/generators/aggregated_gens_iter.rs", AGI_HEADER, "AggregatedGensIter", impl_filter="impl Iterator for AggregatedGensIter", **ka)
     return TYPES + [with_fns(EXT_TRYFROM[0], **k), with_fns(EXT_TRYFROM[1], **k), text("spec/types_spec.rs"), text("spec/spec_bytes.rs"), text("spec/spec_gens.rs"), text("spec/spec_gens_new.rs"), agi_piece]
 
@@ -243,7 +243,7 @@ UNITS["nullrng"] = {
     "prelude": ["00_header.rs", "94_nullrng.rs"],
     "contracts": ["nullrng.vc"],
     "pieces": [
-        fns("src/utils/nullrng.rs", "impl NullRng {", "NullRng", fns=["fill_bytes", "try_fill_bytes"], impl_filter="implRngCoreforNullRng", opdesugar=False,
+        fns("src/utils/nullrng.rs", "impl NullRng {", "NullRng", fns=["fill_bytes", "try_fill_bytes", "next_u32", "next_u64"], impl_filter="implRngCoreforNullRng", opdesugar=False,
             subst=[("rand_core :: Error", "RandError")]),
         raw("proof fn vx_canary_axioms_nr() ensures false { }\n"),
     ],
